@@ -164,9 +164,65 @@ def eof_with_message(t, armed, order, n):
     return c
 
 
+def publisher_write_fault(t, kind, backlog, n):
+    """PUB / XPUB: one subscriber's connection stops accepting data, its outbound buffer fills (or not: `backlog`), then its
+    WRITES start failing with `kind` while its read side stays silent — every later publish still returns at once with
+    success and every other subscriber receives every message"""
+    sc = wg.Script()
+    sc.sock(1, t)
+    sc.attach(1, 1, "SUB", b"victim")
+    sc.attach(1, 2, "SUB", b"by2")
+    sc.attach(1, 3, "SUB", b"by3")
+    for p in (1, 2, 3):
+        sc.reveal_msg(p, [b"\x01"])
+    if t == "PUB":
+        sc.add("drain")
+    else:
+        for _ in range(4):
+            f = sc.fut()
+            sc.add(f"recv {f} 1", f"poll {f}", f"drop {f}")
+    for p in (1, 2, 3):
+        sc.add(f"wire {p}")
+    sc.add("credit 1 0")
+    for i in range(3 if backlog else 0):
+        f = sc.fut()
+        sc.add(f"send {f} 1 {wg.mtok([b'big', ('gen', 65536, 40 + i)])}", f"poll {f}", f"drop {f}", "wire 2", "wire 3")
+    sc.add(f"wrerr 1 {kind}")
+    sent = []
+    for i in range(5):
+        f = sc.fut()
+        m = [b"small", b"m%d" % i]
+        sc.add(f"send {f} 1 {wg.mtok(m)}", f"poll {f}", f"drop {f}", "wire 2", "wire 3")
+        sent.append((f, m))
+    c = sc.case(f"{t}:write-fault:{kind}:{'backlog' if backlog else 'empty'}#{n}", ["publisher-write-fault"])
+    c.expect = ("pubfault", sent)
+    return c
+
+
+def pubfault_oracle(case, lines):
+    res = list(zip(case.ops, lines[1:]))
+    _, sent = case.expect
+    for f, m in sent:
+        i = next(k for k, (op, _) in enumerate(res) if op == f"poll {f}")
+        if res[i][1] != "ready ok":
+            return (f"publishing failed / waited because ANOTHER subscriber's connection has failed: `{res[i - 1][0][:40]}` -> "
+                    f"{res[i][1]} (traffic with the other peers must continue unaffected)")
+        want = "wire " + wg.show_wire([m])
+        for j, p in ((i + 2, 2), (i + 3, 3)):
+            if res[j][1] != want:
+                return (f"healthy subscriber {p} did not receive {wg.show_frames(m)} after another subscriber's connection had "
+                        f"failed: {res[j][1][:80]}")
+    return None
+
+
 def cases(tier, rng):
     out = gen.corpus(ID)
     n = 0
+    for t in ("PUB", "XPUB"):
+        for kind in ("ConnectionReset", "BrokenPipe", "TimedOut", "ConnectionAborted"):
+            for backlog in (True, False):
+                out.append(publisher_write_fault(t, kind, backlog, n))
+                n += 1
     for t in ("PULL", "SUB", "DEALER", "ROUTER", "REP", "XPUB"):
         for armed in (False, True):
             for order in ("eof-first", "message-first"):
@@ -196,6 +252,8 @@ def oracle(case, lines):
             return f"panic/abort in `{op}`"
     if not case.expect:
         return None
+    if case.expect[0] == "pubfault":
+        return pubfault_oracle(case, lines)
     if case.expect[0] == "eofmsg":
         t = case.expect[1]
         res = list(zip(case.ops, lines[1:]))
@@ -269,7 +327,10 @@ def nontrivial(case, lines):
 def signature(case, ml, il, o):
     if ":eofmsg:" in case.name:
         return case.name.split(":")[0] + ":eofmsg"
-    t, event, cutname = case.name.split("#")[0].split(":")
+    parts = case.name.split("#")[0].split(":")
+    if len(parts) != 3:
+        return ":".join(parts[:3]) + (":spec" if o else ":diff")
+    t, event, cutname = parts
     if o and ("not released" in o or "still written to the departed peer" in o):
         return f"{t}:{event}:kept"
     return f"{t}:{event}:{'spec' if o else 'diff'}"
